@@ -156,9 +156,9 @@ HOG_OPS = "racq0,rrel0,hold0,hold1,int0,int1,exit"
 
 
 # a holder that is preempted and, in the same instant, interrupted by an event of higher priority (which runs first)
-PRE_INT = des("p3-preempt-then-interrupt", "mutex", 3, procs=3, prios="0,1,2", budget=4, res=1,
-              ops="racq0,rrel0,rpre0,hold0,hold1,int0,int0h,int1h,exit",
-              script0="racq0,hold2,rrel0", script1="hold1,hold1", script2="hold1,rpre0,int0h,hold1")
+PRE_INT = des("p3-preempt-then-interrupt", "mutex", 3, procs=3, prios="0,1,2", budget=5, res=1,
+              ops="racq0,rrel0,rpre0,hold0,hold1,int0,int0h,int1h,prio0.1,prio0.-1,exit",
+              script0="racq0,hold2,rrel0", script1="hold1,hold1", script2="hold1,rpre0,prio0.1,int0h,hold1")
 
 
 # a holder that waits for another process (or an event) while holding, and loses the resource in the very instant in
@@ -377,6 +377,13 @@ def c06_jobs(tier):
         # waiting times on a clock that starts below zero and moves in steps of 0.1
         des("resource-fractional-clock", "order", b, dl, procs=4, prios="0,1,2,1", budget=3, res=1, tscale="0.1", t0="-0.15",
             ops="racq0,rrel0,hold0,hold1,hold2,tadd1,int0,int1,prio0.2,prio1.0,prio3.2,exit", script="racq0,hold1,rrel0"),
+        # two waiters served by ONE release (two wake-ups under way at once), priorities more than 32 bits apart
+        des("pool-two-grants-wide-priorities", "order", 2, dl, procs=4, prios="9223372036854775807,4294967296,1,-9223372036854775808", budget=4, pool=2,
+            ops="pacq1,pacq2,prel1,prel2,hold0,hold1,int1", script0="pacq2,hold1,prel1,prel1", script1="pacq1,hold1",
+            script2="pacq1,hold1", script3="pacq1,hold1"),
+        des("objectqueue-two-grants-wide-priorities", "order", 2, dl, procs=4, prios="-5,8589934592,3,-1", budget=3, oq="max",
+            ops="oqput0,oqget,hold0,hold1", script0="hold1,oqput0,oqput0,oqput0", script1="oqget,hold1",
+            script2="oqget,hold1", script3="oqget,hold1"),
         # neighbouring priorities where a double (or a difference) cannot tell them apart
         des("resource-adjacent-high", "order", 2, dl, procs=4,
             prios="0,9223372036854775806,9223372036854775807,9007199254740993",
@@ -508,9 +515,13 @@ def c07_jobs(tier):
                     script2="hold1,ppre400,hold1"))
     # a holder in the middle of a second acquire loses everything to a preemption and is interrupted (with a higher event
     # priority, so the interrupt arrives first) in the same instant
-    jobs.append(des("cap2-preempt-then-interrupt", "pool", b, dl, procs=3, prios="0,1,2", budget=4, pool=2,
-                    ops="pacq1,pacq2,ppre1,ppre2,prel1,hold0,hold1,int0,int0h,int1h,exit",
-                    script0="pacq1,pacq2,hold1", script1="pacq1,hold2,hold1", script2="hold1,ppre1,int0h,hold1"))
+    jobs.append(des("cap2-preempt-then-interrupt", "pool", b, dl, procs=3, prios="0,1,2", budget=5, pool=2,
+                    ops="pacq1,pacq2,ppre1,ppre2,prel1,hold0,hold1,int0,int0h,int1h,prio0.1,prio0.-1,exit",
+                    script0="pacq1,pacq2,hold1", script1="pacq1,hold2,hold1", script2="hold1,ppre1,prio0.1,int0h,hold1"))
+    # a holder of pool units AND a binary resource (acquired in either order) whose priority changes before somebody preempts
+    jobs.append(des("cap3-reprioritised-holder", "pool", b, dl, procs=3, prios="0,1,2", budget=4, pool=3, res=1,
+                    ops="pacq1,pacq2,ppre2,ppre3,prel1,racq0,rrel0,prio0.3,prio0.-1,prio2.0,hold0,hold1,exit",
+                    script0="pacq2,racq0,hold2", script1="hold1,prio0.3,ppre2,hold1", script2="hold2,ppre3,hold1"))
     # a pool acquisition in progress that is ended by the preemption of a RESOURCE the caller holds
     jobs.append(des("cap2-with-resource", "pool", b, dl, procs=3, prios="0,1,2", budget=4, pool=2, res=1,
                     ops="pacq1,pacq2,ppre2,prel1,prel2,racq0,rpre0,rrel0,hold0,hold1,int0,exit",
